@@ -61,7 +61,7 @@ func init() {
 		// strconv
 		"strconv.Itoa":       func(fr *frame, a []value) value { return decimalOf(a[0], types.Typ[types.Int], true) },
 		"strconv.FormatInt":  func(fr *frame, a []value) value { needBase10(fr, a[1]); return decimalOf(a[0], types.Typ[types.Int64], true) },
-		"strconv.FormatUint": func(fr *frame, a []value) value { needBase10(fr, a[1]); return decimalOf(a[0], types.Typ[types.Uint64], false) },
+		"strconv.FormatUint": func(fr *frame, a []value) value { return formatUint(fr, a[0], a[1]) },
 		"strconv.FormatBool": intrFormatBool,
 		"strconv.Atoi":       func(fr *frame, a []value) value { return parseDecimal(fr, a[0], true, "Atoi") },
 		"strconv.ParseUint":  func(fr *frame, a []value) value { return parseDecimal(fr, a[0], false, "ParseUint") },
@@ -464,6 +464,35 @@ func parseDecimal(fr *frame, s value, signed bool, what string) value {
 			return tuple{int(math.MaxInt64), numError(what)}
 		}
 		return tuple{st.decOf, iface{}}
+	}
+	if st.hexOf != nil {
+		// decimal reading of a hexadecimal string: succeeds iff every hex
+		// digit is a decimal digit; value = sum of nibble_k * 10^k
+		x := st.hexOf
+		w := x.sort.w
+		var allDec *Term = mkBool(true)
+		var val *Term = mkBV(64, 0)
+		pow := uint64(1)
+		for k := 0; k < w/4; k++ {
+			nib := mkOp(fmt.Sprintf("(_ extract %d %d)", 4*k+3, 4*k), sortBV(4), x)
+			allDec = tAnd(allDec, mkOp("bvule", sortBool, nib, mkBV(4, 9)))
+			ext := mkOp("(_ zero_extend 60)", sortBV(64), nib)
+			val = mkOp("bvadd", sortBV(64), val, mkOp("bvmul", sortBV(64), ext, mkBV(64, pow)))
+			pow *= 10
+		}
+		if fr.p.truth(allDec) {
+			if signed && fr.p.truth(mkOp("bvslt", sortBool, val, mkBV(64, 0))) {
+				return tuple{int(math.MaxInt64), numError(what)}
+			}
+			return tuple{val, iface{}}
+		}
+		if what == "Atoi" {
+			return tuple{int(0), numError(what)}
+		}
+		if what == "ParseUint" {
+			return tuple{uint64(0), numError(what)}
+		}
+		return tuple{int64(0), numError(what)}
 	}
 	// arbitrary symbolic string: over-approximate with a fresh result
 	key := fmt.Sprintf("parse:%p:%v", st, signed)
